@@ -3,7 +3,7 @@
 # Applies /verif/seeded/<name>/patch.diff to a scratch worktree of /repo's HEAD (which carries the contract hook files)
 # and runs the property check against that worktree. /repo itself is not touched. Output dir: /tmp/st/out-<name>.
 name="$1"; prop="$2"; only="${3:-}"; to="${4:-40}"
-patch=/verif/seeded/$name/patch.diff
+patch=${PATCH:-/verif/seeded/$name/patch.diff}
 [ -f "$patch" ] || patch=/tmp/seed/out/${name%-*}/${name#*-}/patch.diff
 wt=/tmp/st/$name-$prop
 mkdir -p /tmp/st; rm -rf "$wt"; git -C /repo worktree prune
